@@ -158,7 +158,7 @@ impl Property for C04 {
          by own signal,appends to $3,$3 is a dangling symlink,stdout and a dangling-symlink $3,$3 is a directory} x sizes {0,1,4095,4096,65537,1MiB} x prior state {absent,user file,\
          previously generated}; cell = run_index mod 216 (every cell enumerated); odd rounds additionally \
          SIGKILL the script at a drawn yield (run_index/216 walks the yields); every third round a stale \
-         <target>.redo.tmp (as a killed earlier run leaves it) exists beforehand; per-step watcher records every state \
+         <target>.redo.tmp (file or directory, as a killed earlier run leaves it) exists beforehand; per-step watcher records every state \
          of the target a reader can see; oracle: final bytes and status per cell, previous content kept \
          on any failure, no *.redo.tmp left (file or directory), no abort of the builder, every observed state is the previous complete content, \
          absence or the complete new content, bytes under one inode never change; non-trivial = the \
@@ -212,8 +212,9 @@ impl Property for C04 {
         let prog = if rng.chance(1, 2) { "redo" } else { "redo-ifchange" };
         if round % 3 == 2 && prior != "user" {
             // what a redo killed during an earlier build of t can leave behind
+            // (a file, or -- every other time -- the directory a script made of $3)
             sc.history.push(Step::Write {
-                path: "t.redo.tmp".into(),
+                path: if round % 6 == 5 { "t.redo.tmp/junk".into() } else { "t.redo.tmp".into() },
                 bytes: b"STALE PARTIAL OUTPUT OF A KILLED RUN\n".to_vec(),
             });
             meta.insert("stale_tmp".into(), serde_json::json!(true));
